@@ -3,6 +3,7 @@ package checks
 import (
 	"context"
 	"encoding/json"
+	"errors"
 	"fmt"
 	"reflect"
 	"testing"
@@ -67,6 +68,12 @@ func c04ItemCtxRun(t rt.TB, c c04ItemCtx) {
 		go func() {
 			defer close(done)
 			defer func() { pan = recover() }()
+			if mode == "subscription context already cancelled" {
+				sctx, scancel := context.WithCancel(context.Background())
+				scancel()
+				sub = row.Build(c.Variant, c.P, cat.NewEnv())(src).SubscribeWithContext(sctx, rec)
+				return
+			}
 			sub = row.Build(c.Variant, c.P, cat.NewEnv())(src).Subscribe(rec)
 		}()
 		select {
@@ -80,6 +87,9 @@ func c04ItemCtxRun(t rt.TB, c c04ItemCtx) {
 		tr := rec.Trace()
 		for _, v := range tr.Vals {
 			vals = append(vals, cat.Norm(v))
+		}
+		if tr.Err != nil && errors.Is(tr.Err, context.Canceled) {
+			return vals, tr.End, "context canceled", pan, returned
 		}
 		return vals, tr.End, cat.ErrKey(tr.Err), pan, returned
 	}
@@ -100,6 +110,20 @@ func c04ItemCtxRun(t rt.TB, c c04ItemCtx) {
 		fail("subscribe-never-returns", fmt.Sprintf("%s: with live item contexts Subscribe returns (%v ending %q), now it is still running after 3s", desc, v1, e1))
 		return
 	}
+	if c.Mode == "subscription context already cancelled" {
+		// the documentation does not say what a stage makes of a subscription context that
+		// is over: it may go on as if nothing were (every stage does today), cut short, or
+		// end with the context's error - but it may not invent values, and a subscriber
+		// whose source has ended is not left without an ending
+		if len(v2) > len(v1) || (len(v2) > 0 && !reflect.DeepEqual(v1[:len(v2)], v2)) {
+			fail("output-not-a-prefix-under-a-cancelled-subscription-context", fmt.Sprintf("%s: with a live context the output is %v ending %q, now it is %v ending %q %s", desc, v1, e1, v2, e2, k2))
+		} else if e1 != 0 && e2 == 0 {
+			fail("no-ending-under-a-cancelled-subscription-context", fmt.Sprintf("%s: with a live context the output is %v ending %q; now it is %v and the subscriber never hears of an ending", desc, v1, e1, v2))
+		} else if e2 != 0 && !(e2 == e1 && k2 == k1 && len(v1) == len(v2)) && k2 != "context canceled" {
+			fail("ending-differs-under-a-cancelled-subscription-context", fmt.Sprintf("%s: with a live context the output is %v ending %q %s, now it is %v ending %q %s (neither the same nor the context's error)", desc, v1, e1, k1, v2, e2, k2))
+		}
+		return
+	}
 	if !(len(v1) == 0 && len(v2) == 0) && !reflect.DeepEqual(v1, v2) || e1 != e2 || k1 != k2 {
 		fail("output-depends-on-the-state-of-item-contexts", fmt.Sprintf("%s: with live item contexts the output is %v ending %q %s, now it is %v ending %q %s", desc, v1, e1, k1, v2, e2, k2))
 	}
@@ -115,7 +139,7 @@ func TestC04_ItemContextsOver(t *testing.T) {
 			for _, v := range row.Variants {
 				for _, n := range []int{0, 1, 3} {
 					for _, end := range []byte{'C', 'E'} {
-						for _, mode := range []string{"cancelled before emission", "cancelled after emission"} {
+						for _, mode := range []string{"cancelled before emission", "cancelled after emission", "subscription context already cancelled"} {
 							idx++
 							if !rt.Mine(idx) {
 								continue
